@@ -2011,7 +2011,8 @@ class HDKey(Key):
         :return bytes:
         """
 
-        return self.hash160[:4]
+        # BIP32: first 4 bytes of HASH160 of the compressed public key, also for uncompressed key objects
+        return hash160(self.public_compressed_byte)[:4]
 
     @staticmethod
     def _bip38_decrypt(encrypted_privkey, password, network=DEFAULT_NETWORK, witness_type=DEFAULT_WITNESS_TYPE):
@@ -2325,7 +2326,8 @@ class HDKey(Key):
         if hardened:
             data = b'\0' + self.private_byte + index.to_bytes(4, 'big')
         else:
-            data = self.public_byte + index.to_bytes(4, 'big')
+            # BIP32 serP: always the compressed encoding, also for objects presenting an uncompressed key
+            data = self.public_compressed_byte + index.to_bytes(4, 'big')
         key, chain = self._key_derivation(data)
 
         key = int.from_bytes(key, 'big')
@@ -2369,7 +2371,7 @@ class HDKey(Key):
             network = self.network.name
         if index < 0 or index >= 0x80000000:
             raise BKeyError("Cannot derive hardened key from public private key. Index must be less than 0x80000000")
-        data = self.public_byte + index.to_bytes(4, 'big')
+        data = self.public_compressed_byte + index.to_bytes(4, 'big')
         key, chain = self._key_derivation(data)
         key = int.from_bytes(key, 'big')
         if key >= secp256k1_n:
